@@ -34,9 +34,31 @@ import mock
 
 import fw
 
+MANIFEST = u"""proid: p
+environment: dev
+services:
+- name: web
+  command: /bin/sleep 5
+  restart: {limit: 3, interval: 60}
+  environ: []
+cpu: 10%
+memory: 100M
+disk: 100M
+"""
+
+
+class _StubRuntimeCls(object):
+    """Stand-in for the runtime plugin class looked up by `app_manifest.load`: leaves the manifest alone."""
+    name = 'linux'
+
+    @classmethod
+    def manifest(cls, _tm_env, _manifest):
+        """No runtime specific manifest changes."""
+
+
 NAME = 'appcfg'
 DRIVER = 'AppCfg'
-CASES = {'quick': 4000, 'thorough': 60000, 'search': 6000}
+CASES = {'quick': 1500, 'thorough': 15000, 'search': 3000}
 RULE = {
     'C13': 'random node histories (10-40 ops: manifests written/removed by the event manager incl. '
            'evict-and-place-again of one instance, FIFO delivery of the queued inotify events with '
@@ -405,12 +427,10 @@ class _World:
             if 'setup' in content:
                 raise exc.ContainerSetupError('bad manifest')
             raise ValueError('bad manifest')
-        uniq = self.orig_unique_name(event)
-        cdir = os.path.join(tm_env.apps_dir, uniq)
-        os.makedirs(os.path.join(cdir, 'data'), exist_ok=True)
-        shutil.copyfile(event, os.path.join(cdir, 'data', 'manifest.yml'))
+        # a loadable manifest: the REAL `appcfg.configure.configure` (container directory, services, copy of the
+        # event as data/manifest.yml ...); only the runtime plugin lookup and the executable lookup are stubbed
         self.stats['configure'] += 1
-        return cdir
+        return self.real_configure(tm_env, event, runtime, runtime_param)
 
     def _site(self):
         names = []
@@ -552,7 +572,10 @@ class _World:
     def fs_create(self, i, ok):
         name = INST[i]
         path = os.path.join(self.env.cache_dir, name)
-        content = 'name: %s\nok: %s\n' % (name, 'true' if ok else ('false # setup' if i % 2 else 'false'))
+        if ok:
+            content = MANIFEST + '# name: %s\n# ok: true\n' % name
+        else:
+            content = 'name: %s\nok: %s\n' % (name, 'false # setup' if i % 2 else 'false')
         for _attempt in range(200):
             tmp = os.path.join(self.env.cache_dir, '.%s-tmp' % name)
             with io.open(tmp, 'w') as f:
@@ -700,7 +723,14 @@ def run_impl(case, pid):
     root = tempfile.mkdtemp(dir='/var/tmp', prefix='tmverif-appcfg-')
     try:
         w = _World(root, run)
+        from treadmill.appcfg import configure as tm_configure
+        from treadmill import context as tm_context
+        tm_context.GLOBAL.cell = 'test'
+        tm_context.GLOBAL.zk.url = 'zookeeper://foo@bar:123'
+        w.real_configure = tm_configure.configure
         with mock.patch('treadmill.appcfg.configure.configure', w.fake_configure), \
+                mock.patch('treadmill.runtime.get_runtime_cls', mock.Mock(return_value=_StubRuntimeCls)), \
+                mock.patch('treadmill.subproc.resolve', mock.Mock(side_effect=lambda exe: '/bin/' + exe)), \
                 mock.patch('treadmill.supervisor.control_svscan', mock.Mock()), \
                 mock.patch('treadmill.appcfg.abort.report_aborted', mock.Mock()), \
                 mock.patch('treadmill.runtime.get_runtime',
